@@ -176,7 +176,12 @@ func walkNode(expr string, node promParser.Node) (src []Source) {
 		src = append(src, s)
 
 	case *promParser.UnaryExpr:
-		src = append(src, walkNode(expr, n.Expr)...)
+		for _, s := range walkNode(expr, n.Expr) {
+			if n.Op == promParser.SUB {
+				s.ReturnedNumber = -s.ReturnedNumber
+			}
+			src = append(src, s)
+		}
 
 	case *promParser.StepInvariantExpr:
 		// Not possible to get this from the parser.
@@ -399,6 +404,7 @@ func walkAggregation(expr string, n *promParser.AggregateExpr) (src []Source) {
 		for _, s = range parseAggregation(expr, n) {
 			s.Aggregation = n
 			s.Operation = "stddev"
+			s.KnownReturn = false // not the value of what's being aggregated
 			s = excludeLabel(s, "Aggregation removes metric name.", n.PosRange, labels.MetricName)
 			src = append(src, s)
 		}
@@ -406,6 +412,7 @@ func walkAggregation(expr string, n *promParser.AggregateExpr) (src []Source) {
 		for _, s = range parseAggregation(expr, n) {
 			s.Aggregation = n
 			s.Operation = "stdvar"
+			s.KnownReturn = false // not the value of what's being aggregated
 			s = excludeLabel(s, "Aggregation removes metric name.", n.PosRange, labels.MetricName)
 			src = append(src, s)
 		}
@@ -413,6 +420,7 @@ func walkAggregation(expr string, n *promParser.AggregateExpr) (src []Source) {
 		for _, s = range parseAggregation(expr, n) {
 			s.Aggregation = n
 			s.Operation = "count"
+			s.KnownReturn = false // not the value of what's being aggregated
 			s = excludeLabel(s, "Aggregation removes metric name.", n.PosRange, labels.MetricName)
 			src = append(src, s)
 		}
@@ -420,6 +428,7 @@ func walkAggregation(expr string, n *promParser.AggregateExpr) (src []Source) {
 		for _, s = range parseAggregation(expr, n) {
 			s.Aggregation = n
 			s.Operation = "count_values"
+			s.KnownReturn = false // not the value of what's being aggregated
 			// Param is the label to store the count value in.
 			if name, ok := stringParam(n.Param); ok {
 				s = includeLabel(s, name)
@@ -432,6 +441,7 @@ func walkAggregation(expr string, n *promParser.AggregateExpr) (src []Source) {
 		for _, s = range parseAggregation(expr, n) {
 			s.Aggregation = n
 			s.Operation = "quantile"
+			s.KnownReturn = false // not the value of what's being aggregated
 			s = excludeLabel(s, "Aggregation removes metric name.", n.PosRange, labels.MetricName)
 			src = append(src, s)
 		}
@@ -695,6 +705,10 @@ func parseCall(expr string, n *promParser.Call) (src []Source) {
 				es.Operation = n.Func.Name
 				es.Call = n
 				es.Position = e.PositionRange()
+				// Only label functions return the value they were given.
+				if n.Func.Name != "label_replace" && n.Func.Name != "label_join" {
+					es.KnownReturn = false
+				}
 				src = append(src, parsePromQLFunc(es, expr, n))
 			}
 		case promParser.ValueTypeNone, promParser.ValueTypeScalar, promParser.ValueTypeString:
